@@ -52,6 +52,22 @@ def db_path_components(W):
 
 
 # =========================================================================== C17
+def deep_terms(W, body, t):
+    """Sub-terms of t, descending into sum-structured locals and into what was fed to a collection built in place
+    (`let mut s = HashSet::new(); for x in xs { s.insert(*x) }`: the arguments of the mutator calls)."""
+    pv = W.prov(body)
+    seen = set()
+    st = [t]
+    while st:
+        x = st.pop()
+        for y in P.walk_deep(x):
+            yield y
+            if y[0] == "mut" and y[1] not in seen:
+                seen.add(y[1])
+                for bb, callee, ai in pv.mutators(y[1]):
+                    st.extend(a for i_, a in enumerate(pv.arg_terms(bb)) if i_ != ai)
+
+
 def c17(rep, W, rule="C17", sections=None):
     """sections: None = everything; or a set of rule suffixes ({".LIST", ".ARGS"}) for properties that rely on part of the wiring."""
     if sections is not None:
@@ -221,12 +237,12 @@ def c17(rep, W, rule="C17", sections=None):
         fl = dict(term[2])
         for fname, (aid, getter) in want_ids.items():
             t = fl.get(fname, ("unknown",))
-            gets = list(set(x for x in P.walk_deep(t) if x[0] == "call" and x[1].startswith("clap_builder::parser::matches::arg_matches::ArgMatches::get_")))
+            gets = list(set(x for x in deep_terms(W, ab, t) if x[0] == "call" and x[1].startswith("clap_builder::parser::matches::arg_matches::ArgMatches::get_")))
             okf = len(gets) == 1 and gets[0][1].endswith("::" + getter) and H.const_str(gets[0][3][1]) == aid
             rep.ob(rule + ".ARGS", ("ServerArgs::new", fname), okf,
                    "ServerArgs.%s is read from %s; must be %s(\"%s\")" % (fname, [(x[1].split("::")[-1], H.const_str(x[3][1])) for x in gets], getter, aid), where(ab))
         al = fl.get("client_id_allowlist", ("unknown",))
-        gm = [x for x in P.walk_deep(al) if x[0] == "call" and x[1].endswith("ArgMatches::get_many")]
+        gm = [x for x in deep_terms(W, ab, al) if x[0] == "call" and x[1].endswith("ArgMatches::get_many")]
         okn = len(set(gm)) == 1 and S.option_map_of(W.gea(ab), W.prov(ab), al, gm[0]) is not None
         rep.ob(rule + ".ARGS", ("ServerArgs::new", "absent-list-is-None"), okn,
                "client_id_allowlist is %s; an absent option must stay None (= allow everybody), e.g. not unwrap_or_default (= allow nobody)" % P.show(al)[:120], where(ab))
@@ -451,7 +467,7 @@ def uuid_encoder_class(W):
         return None
     for site, term in S.exits(W, b):
         calls_ = [x[1] for x in P.walk(term) if x[0] == "call"]
-        if "alloc::string::ToString::to_string" in calls_ and not any(c.split("::")[-1] in ("simple", "hyphenated", "urn", "braced", "as_bytes", "to_bytes_le", "as_u128") for c in calls_):
+        if "alloc::string::ToString::to_string" in calls_ and not any(c.split("::")[-1] in ("simple", "urn", "braced", "as_simple", "as_urn", "as_braced", "as_bytes", "to_bytes_le", "as_u128") for c in calls_):
             # Display of Uuid = hyphenated lowercase
             src = [x for x in P.walk(term) if x[0] == "call" and x[1] == "alloc::string::ToString::to_string"]
             if src and src[0][3][0] == ("field", ("param", 1, "self"), "0"):
